@@ -195,6 +195,11 @@ def main(argv=None):
     broken.append('correspondence %s: model and implementation differ on %d case(s), first #%d' %
                   (mod.COQ_CHECK, len(diverging), diverging[0]))
 
+  if os.environ.get('VERIF_DEBUG') and (diverging or coq_err):
+    with open(os.path.join(C.BUILD, 'debug_%s.json' % pid), 'w') as f:
+      json.dump({'coq_err': coq_err, 'diverging': [{'index': i, 'case': cases[i], 'obs': obs[i], 'model': details.get(i),
+                                                      'term': terms[term_idx.index(i)][:20000]} for i in diverging[:10]]}, f, indent=1, default=repr)
+
   # ---- 4. verdict ----------------------------------------------------------------------------
   viol = [(i, s, m) for i, ms in enumerate(mon) for (s, m) in ms]
   # search harder when something broke but no monitor fired
